@@ -236,6 +236,52 @@ def unbound_names(prog: list[str]) -> list[str]:
     return out
 
 
+def dead_if_in_text(prog: list[str]) -> bool:
+    """Is there an `if` in the printed program none of whose result variables is read outside the statement?
+    (the result variables are the left-hand sides of the assignments closing its two branches)"""
+    def depth(ln):
+        return int(ln.split(" ", 1)[0][1:]) if ln.startswith("L") else 0
+
+    def reads(ln):
+        out = []
+        if not ln.startswith("L"):
+            return out
+        body = ln.split(" ", 1)[1]
+        kind, _, rest = body.partition(" ")
+        if kind == "call":
+            rhs = rest.partition(" = ")[2]
+            a = rhs[rhs.index("(") + 1 : -1].split("|")
+            out += a[0].split(",") + [kv.split("=@")[1] for kv in a[1].split(",") if "=@" in kv]
+        elif kind == "op":
+            out += rest.partition(" = ")[2].split(" ")[0::2]
+        elif kind == "assign":
+            out.append(rest.partition(" = ")[2])
+        elif kind in ("if", "while", "breakif"):
+            out.append(rest)
+        elif kind == "for":
+            out.append(rest.split(" ")[1])
+        elif kind == "forbreak":
+            out += rest.split(" ")[1:]
+        elif kind == "return":
+            out += rest.split(",")
+        return [x.strip("()") for x in out]
+
+    for i, ln in enumerate(prog):
+        if not (ln.startswith("L") and ln.split(" ")[1] == "if"):
+            continue
+        d = depth(ln)
+        j = i + 1
+        results = set()
+        while j < len(prog) and prog[j].startswith("L") and (depth(prog[j]) > d or prog[j] == f"L{d} else"):
+            if depth(prog[j]) == d + 1 and prog[j].split(" ")[1] == "assign":
+                results.add(prog[j].split(" ", 2)[2].partition(" = ")[0])
+            j += 1
+        outside = prog[:i] + prog[j:]
+        if results and not any(r in reads(x) for x in outside for r in results):
+            return True
+    return False
+
+
 def classify(stage: str, case: dict, opts: dict, mprog: list[str] | None, mres: str, detail: str = "") -> str | None:
     """The OPEN known finding whose predicate contains this failing (case, options), if any.  Every other finding of
     this property is fixed in /repo: a failure there is a VIOLATION again.  Only converter *refusals* (stages exec /
@@ -244,6 +290,8 @@ def classify(stage: str, case: dict, opts: dict, mprog: list[str] | None, mres: 
         return None
     if mprog and any(" forbreak " in ln for ln in mprog):
         return "C13-LOOP-BREAK"
+    if mprog and "A subgraph for a test do not have any output variable" in detail and dead_if_in_text(mprog):
+        return "C13-DEAD-IF"
     return None
 
 
@@ -395,7 +443,8 @@ def tie_cases(ctx: Ctx, cases: list[dict], optlist_of) -> list:
                 for ln in mprog:
                     parts = ln.split(" ")
                     ctx.stats["stmt_" + (parts[0] if parts[0] in ("sig", "wrap", "deco") else parts[1])] += 1
-        res.append((case, opts, src, exc, mprog, mres, lits))
+        iprog = ires.split(" ; ") if (exc is None and not ires.startswith("UNPARSABLE")) else None
+        res.append((case, opts, src, exc, mprog, mres, lits, iprog))
     return res
 
 
@@ -417,15 +466,18 @@ def fail(ctx: Ctx, case, opts, stage, detail, mprog, mres):
 
 def oracle(ctx: Ctx, item) -> None:
     """The property's own oracle on one (case, options)."""
-    case, opts, src, exc, mprog, mres, lits = item
+    case, opts, src, exc, mprog, mres, lits, iprog = item
     t0 = time.time()
     try:
-        _oracle(ctx, case, opts, src, exc, mprog, mres)
+        _oracle(ctx, case, opts, src, exc, mprog, mres, iprog)
     finally:
         ctx.t_oracle += time.time() - t0
 
 
-def _oracle(ctx, case, opts, src, exc, mprog, mres):
+def _oracle(ctx, case, opts, src, exc, mprog, mres, iprog=None):
+    # what the real exporter printed decides how the text is executed and which names the signature has;
+    # the model's program is only used to classify failures
+    rprog = iprog if iprog is not None else mprog
     import onnxscript
 
     st = ctx.stats
@@ -456,13 +508,14 @@ def _oracle(ctx, case, opts, src, exc, mprog, mres):
         proto = case["proto"]
         try:
             if case["kind"] == "M":
-                if mprog and mprog[0].startswith("wrap "):
+                wrapline = next((ln for ln in (rprog or []) if ln.startswith("wrap ")), None)
+                if wrapline:
                     arrays = [
                         numpy_helper.to_array(t)
                         for t in proto.graph.initializer
                         if (int(np.prod(list(t.dims))) if t.dims else 1) > 4
                     ]
-                    params = mprog[0][5:].split(",")
+                    params = wrapline[5:].split(",")
                     m2 = mod.make_model(**dict(zip(params, arrays)))
                 else:
                     fns = [v for v in mod.__dict__.values() if isinstance(v, onnxscript.OnnxFunction)]
@@ -500,7 +553,7 @@ def _oracle(ctx, case, opts, src, exc, mprog, mres):
                 st["fragment_reread_ok"] += 1
         # ---- same graph inputs and outputs
         if case["kind"] == "M":
-            sig = ([ln for ln in (mprog or []) if ln.startswith("sig ")] or ["sig f(|)"])[-1]  # the main graph's
+            sig = ([ln for ln in (rprog or []) if ln.startswith("sig ")] or ["sig f(|)"])[-1]  # the main graph's
             sig_names = [x for x in sig[sig.index("(") + 1 : -1].split("|")[0].split(",") if x]
             # input names: what the exporter printed in the signature (cleaned, uniquified or short names);
             # distinct inputs must stay distinct
@@ -907,6 +960,18 @@ def witnesses() -> list[tuple[str, dict, dict]]:
                      [H.make_tensor_value_info("x", TP.FLOAT, [3])], [H.make_tensor_value_info("y", TP.FLOAT, [3])])
     m = H.make_model(g, functions=[fp], opset_imports=[H.make_opsetid("", GEN.OPSET), H.make_opsetid("my.dom", 1)], ir_version=8)
     out.append(("C13-LOCAL-FUNCTIONS", case_of_model(m, [{"x": X}], {"refusal": None, "flags": ["witness"]}), dict(base)))
+    # an If that is only read by another If which is dead: 0215218 drops the reader, the first If stays (open, narrowed)
+    tb1 = H.make_graph([H.make_node("Neg", ["x"], ["q1"])], "t1", [], [H.make_tensor_value_info("q1", TP.FLOAT, [3])])
+    eb1 = H.make_graph([H.make_node("Abs", ["x"], ["q2"])], "e1", [], [H.make_tensor_value_info("q2", TP.FLOAT, [3])])
+    tb2 = H.make_graph([H.make_node("Relu", ["a"], ["q3"])], "t2", [], [H.make_tensor_value_info("q3", TP.FLOAT, [3])])
+    eb2 = H.make_graph([H.make_node("Tanh", ["a"], ["q4"])], "e2", [], [H.make_tensor_value_info("q4", TP.FLOAT, [3])])
+    m = _mk(
+        [H.make_node("ReduceSum", ["x"], ["s"], keepdims=0), H.make_node("Constant", [], ["z"], value=H.make_tensor("value", TP.FLOAT, [], [0.0])),
+         H.make_node("Greater", ["s", "z"], ["c"]), H.make_node("If", ["c"], ["a"], then_branch=tb1, else_branch=eb1),
+         H.make_node("If", ["c"], ["unused"], then_branch=tb2, else_branch=eb2), H.make_node("Relu", ["x"], ["y"])],
+        [f3], [y3],
+    )  # fmt: skip
+    out.append(("C13-DEAD-IF", case_of_model(m, [{"x": X}], {"refusal": None, "flags": ["witness"]}), dict(base)))
     # If whose outputs are never used
     tb = H.make_graph([H.make_node("Neg", ["x"], ["k1"])], "t", [], [H.make_tensor_value_info("k1", TP.FLOAT, [3])])
     eb = H.make_graph([H.make_node("Abs", ["x"], ["k2"])], "e", [], [H.make_tensor_value_info("k2", TP.FLOAT, [3])])
@@ -916,7 +981,7 @@ def witnesses() -> list[tuple[str, dict, dict]]:
          H.make_node("Relu", ["x"], ["y"])],
         [f3], [y3],
     )  # fmt: skip
-    out.append(("C13-DEAD-IF", case_of_model(m, [{"x": X}], {"refusal": None, "flags": ["witness"]}), dict(base)))
+    out.append(("C13-DEAD-IF-DIRECT", case_of_model(m, [{"x": X}], {"refusal": None, "flags": ["witness"]}), dict(base)))
     return out
 
 
